@@ -7,11 +7,15 @@ import (
 	"os"
 
 	"verifharness/internal/c01"
+	"verifharness/internal/c02"
+	"verifharness/internal/c03"
 	"verifharness/internal/c04"
+	"verifharness/internal/c05"
 	"verifharness/internal/c06"
 	"verifharness/internal/c07"
 	"verifharness/internal/c08"
 	"verifharness/internal/c09"
+	"verifharness/internal/c13"
 	"verifharness/internal/c14"
 	"verifharness/internal/c15"
 	"verifharness/internal/c16"
@@ -20,6 +24,7 @@ import (
 	"verifharness/internal/c19"
 	"verifharness/internal/c20"
 	"verifharness/internal/common"
+	"verifharness/internal/inventory"
 )
 
 type sub func(tier string, seed int64, outDir string) *common.Meta
@@ -30,6 +35,10 @@ var subs = map[string]sub{
 	"c06": c06.Run,
 	"c07": c07.Run,
 	"c20": c20.Run,
+	"c02": c02.Run,
+	"c03": c03.Run,
+	"c05": c05.Run,
+	"c13": c13.Run,
 	"c08": c08.Run,
 	"c09": c09.Run,
 	"c14": c14.Run,
@@ -45,6 +54,9 @@ var gens = map[string]func(outDir string) error{
 	"ruletable": c15.GenRuleTable,
 	"ir":        c17.GenIR,
 	"suggest":   c09.GenSuggestTable,
+	"stateinv":  inventory.GenStateInventory,
+	"maprange":  inventory.GenMapRangeSites,
+	"mutsites":  inventory.GenMutationSites,
 }
 
 func main() {
